@@ -3,6 +3,7 @@ package main
 // gosmt: symbolic (predicated) executor for go/ssa producing SMT queries; see /verif/DESIGN.md.
 
 import (
+	"runtime/pprof"
 	"encoding/json"
 	"flag"
 	"fmt"
@@ -87,7 +88,19 @@ func main() {
 	flag.Var(&redirects, "redirect", "real.Func=pkgpath.Func (repeatable)")
 	var noops multiFlag
 	flag.Var(&noops, "noop", "fully qualified function to treat as a no-op returning zero values (repeatable; logging helpers)")
+	cpuProf := flag.String("cpuprofile", "", "write a CPU profile of the engine here")
 	flag.Parse()
+	if *cpuProf != "" {
+		if f, err := os.Create(*cpuProf); err == nil {
+			pprof.StartCPUProfile(f)
+			go func() {
+				// the engine exits through os.Exit in several places: flush periodically
+				time.Sleep(120 * time.Second)
+				pprof.StopCPUProfile()
+				f.Close()
+			}()
+		}
+	}
 	start := time.Now()
 	out := &Output{Harness: *harness, Package: *pkgPat, Params: map[string]int64{}, Solver: *solverName, ReverseMap: *revMaps}
 	writeOut := func() {
